@@ -1,21 +1,27 @@
 """C17 - sampled runs are independent draws, serial or parallel, and do not alter their sources.
 
-Every case materialises one (project, parameter set, optional program set + instructions) with drawn uncertainties and
-  1. samples the sources directly (ParameterSet.sample / ProgramSet.sample) three times with drawn seeds: must not raise, must
-     return a new object, must leave the source canon-unchanged, and with all sigmas 0/None must reproduce the unsampled run;
-  2. calls Project.run_sampled_sims serially (always) and in parallel with a drawn number of workers (or Ensemble.run_sims in
-     parallel), after seeding the global numpy generator with a drawn seed, and checks
-       - the fingerprints of the samples of one call are pairwise distinct and none equals the unsampled run, whenever a
-         perturbed input is visible one-to-one in the fingerprint,
+Every case materialises one (project, parameter set [sometimes with a saved initialization], optional program set + instructions)
+with drawn uncertainties and
+  1a. samples the sources directly (ParameterSet.sample / ProgramSet.sample; twice in a row after one seeding and once after another):
+      must not raise, must return new objects, must leave the sources canon-unchanged; PER QUANTITY the sampled value of every input
+      with sigma > 0 (parameters, initial sizes, transfers, interactions, spend, unit cost, capacity, saturation, coverage, outcomes,
+      interaction outcomes; best estimates incl. exactly 0 as constant / in a year column, exactly 1, sigma > |value|) differs from
+      the entered value and between the samples, and every input with sigma 0/None keeps its value;
+  1b. runs the model on directly sampled sets (with all sigmas 0/None: equal to the unsampled run);
+  2.  calls every entry point twice in a row (first call after np.random.seed(drawn), second call not reseeded):
+      Project.run_sampled_sims serial (always, + reproducibility from the seed), Ensemble.run_sims serial and CascadeEnsemble.run_sims
+      serial (whenever PlotData / the cascade can be made from the unsampled run), and Project.run_sampled_sims parallel with a drawn
+      number of workers or Ensemble.run_sims parallel; checks
+       - the fingerprints of the samples of one call are pairwise distinct, none equals the unsampled run, and the second call shares
+         no sample with the first, whenever a perturbed input is visible one-to-one in the fingerprint,
        - no uncertainty (all sigma 0/None): every sample equals the unsampled run bit for bit,
-       - sources canon-unchanged by the call, right number/shape of results,
-       - serial: the same seed reproduces the same samples (the documentation seeds np.random before sampling).
+       - sources canon-unchanged by the call (incl. a saved initialization), right number/shape of results.
 
 Fingerprint of a sample = digest of all result arrays (compartments, characteristics, parameters, links) + digest of the program
 inputs kept by the run (Model.progset is a copy of the sampled program set).  A perturbed input is visible one-to-one if it is a
-data parameter without function, limits, program overwrite or zero calibration factor (its own stored values are value+delta), or
-any program-set input.  Otherwise two different draws may legitimately collapse onto one result (limits, inactive programs) and
-distinctness is not required.
+data parameter without function, limits, program overwrite or zero calibration factor (its own stored values are value+delta), an
+initial stock, or any program-set input.  Otherwise two different draws may legitimately collapse onto one result (limits, inactive
+programs) and distinctness of the RESULTS is not required (the per-quantity check 1a still applies).
 """
 import os
 import functools
@@ -30,7 +36,10 @@ RULE = (
     "projects udt, tb_simple; uncertainty class none|zero|parset|progset|both with sigmas drawn as 0.1-5% of the value (program outcomes: 0.001-0.03 absolute), or class init = sigma on "
     "initial stocks (compartment / characteristic databook entries) sized so that 20-60% of the draws are rejected with BadInitialization and resampled (rejections measured by a serial "
     "replay and reported as labels rejected-draws / rejection-rate); in ~30% of the cases the source parameter set carries a saved initialization (set_initialization from an "
-    "unsampled run at a later time point); samples 2..32; "
+    "unsampled run at a later time point); class edge = 1-3 inputs of any kind (parameters, initial sizes, transfers, interactions, spend, capacity, outcomes) get a best "
+    "estimate of exactly 0 (as constant / in a year column), exactly 1 or a sigma of twice the value, with sigma > 0, and the sampled value of EVERY input with sigma > 0 must "
+    "differ from the entered value and between direct samples (labels uq:<kind of input>, uv:<value class>); every entry point is called twice in a row (second call not reseeded): "
+    "run_sampled_sims serial and parallel, Ensemble.run_sims serial and parallel, CascadeEnsemble.run_sims serial, sample() directly; samples 2..32; "
     "per case 3 direct sample() probes, 2 serial calls of Project.run_sampled_sims and 1 parallel call with 1,2,3,4,8,16 workers (or Ensemble.run_sims(parallel=True)); drawn "
     "seeds for the global numpy generator before every call); oracle = pairwise distinct fingerprints (result arrays + program inputs kept by the run) within one call when a "
     "perturbed input is visible one-to-one in the fingerprint, bitwise equality with the unsampled run when every sigma is 0/None, sources canon-unchanged, sample() never "
@@ -42,6 +51,7 @@ ASSUMPTIONS = [
     "distinctness is required only where a perturbed input reaches the fingerprint one-to-one (untargeted data parameter without function/limits/zero factor, or any program input, which Model.progset retains) and three harness-side perturbations confirm it; sigmas are at most 5% of the value; other cases (perturbation only on clipped, overwritten or function parameters, compartment sizes, transfers) are labelled no-one-to-one-path and still get every other oracle",
     "initial stocks count as one-to-one visible: the stored initial size of an ordinary compartment / initial value of a characteristic is value + delta for every accepted draw; the number of rejected draws is measured harness-side by replaying a serial sample-run-resample loop from the case's seed (the parallel workers' own rejections are not observable), at most 50 attempts per sample as in atomica",
     "a saved initialization is part of the source parameter set: the unsampled reference run uses it, a sample must keep it (zero uncertainty => identical run) and the canonical form compared for 'source unchanged' includes it; with a saved initialization, uncertainty on databook stocks cannot reach the run, which the probes notice (distinctness then rests on other inputs or is not required)",
+    "edge class: runs on edge-valued perturbed inputs (negative rates etc.) that raise inside the model are discarded, not reported; zero/negative durations, unit costs and saturations are not generated; the per-quantity oracle does not depend on the model run",
     "process start method is fork (Linux default in Python 3.12; sciris/multiprocess likewise): workers inherit the check process's sys.path, so VERIF_ATOMICA_SRC applies to workers as well",
     "serial reproducibility from np.random.seed is taken as promised because docs/examples/Uncertainty.ipynb seeds the global generator to obtain specific samples; parallel reproducibility and serial==parallel are not required",
     "a call that exhausts its 50 resampling attempts because of bad initial conditions is outside the domain (discarded, counted); generated specs atomica cannot build/run unsampled are discarded (C18)",
